@@ -4,6 +4,17 @@ Exhaustive enumeration of all ordered pairs of version strings over a sharp alph
 with a C transcription of upstream rpmvercmp() (ref/rpmvercmp.c, validated against rpm's own
 rpmvercmp.at table on every run), plus the total-preorder argument (rank classes), the
 epoch/version/release layering, every rich operator of InstalledRpm and newest/oldest.
+
+Boundary dimension (parts "boundary-*"): EMPTY fields.  The empty string is a real version / release value (RPM:
+rpmvercmp("", "1") == -1, rpmvercmp("", "~") == 1) that is falsy in Python, so `if not release`, `release or ...`
+shortcuts are invisible while every generated field is non-empty.  A small epoch x version x release universe whose
+version and release sets contain "" is explored through every constructor that can produce such a package (dict, the
+JSON rpm -qa line, and the package string where the form can express it: an empty version needs the "epoch:" prefix,
+an empty release cannot be written), as ALL ordered pairs (reference answer, six operators, antisymmetry), ALL ordered
+triples (transitivity of the comparison and of <=, ==, < - reference-free) and ALL lists of <= 3 in every order
+(newest / oldest / get_max / get_min, mixin and parser).
+Outside the quantifier ("epoch, version and release STRINGS"), hence not enumerated: a missing / None version or release
+(not a string) and epoch "" (RPM epochs are unsigned integers or absent; "" is neither).
 """
 import ctypes
 import functools
@@ -20,14 +31,22 @@ LEVEL = "exploration"
 RULE = ("all ordered pairs of all strings of length <= L over the alphabet {0,1,9,a,B,.,:,e-acute,~,^} "
         "(vercmp), all pairs over epoch x version x release universes (EVR and InstalledRpm operators), "
         "all lists of <= 3 packages (newest/oldest); a case is non-trivial when the two operands differ "
-        "and share their first character (the decision is not made on the first character)")
+        "and share their first character (the decision is not made on the first character); boundary parts: all ordered "
+        "pairs / triples / lists of <= 3 over an epoch x version x release universe whose version and release sets contain "
+        "the EMPTY string, per constructor (dict, JSON line, package string where expressible); non-trivial there = the "
+        "operands differ and at least one version / release field is empty")
 ASSUMPTIONS = ["ref/rpmvercmp.c is a faithful transcription of upstream rpmvercmp(); it is re-validated "
                "against the official rpmvercmp.at rows on every run",
                "bounded: no counterexample with <= L symbols over the stated alphabet, nothing more"]
 
 SIGMA = ["0", "1", "9", "a", "B", ".", ":", "é", "~", "^"]   # two ASCII separators: one of "._+-" and one outside that set
-BOUNDS = {"quick": {"max_len": 3, "evr_versions": 12, "list_len": 3},
-          "thorough": {"max_len": 4, "plus_len5_over": "0 1 a . ~ ^", "evr_versions": 43, "list_len": 3}}
+BOUNDS = {"quick": {"max_len": 3, "evr_versions": 12, "list_len": 3,
+                    "boundary_universe": "epoch {absent,0,1} x version {'',0,1} x release {'',0,1,2,~} = 45 EVRs: all pairs x "
+                                         "{dict,json,package*}, all triples x {dict,json}; lists <= 3 over 8 EVRs x {mixin,parser}"},
+          "thorough": {"max_len": 4, "plus_len5_over": "0 1 a . ~ ^", "evr_versions": 43, "list_len": 3,
+                       "boundary_universe": "epoch {absent,(none),0,1,10} x version {'',0,1,1.0,a,~} x release {'',0,1,2,~,^,1.el7} "
+                                            "= 210 EVRs: all pairs x {dict,json,package*}, all triples x {dict,json}; lists <= 3 over "
+                                            "30 EVRs x {mixin,parser}"}}
 CAP_S = {"quick": 300, "thorough": 2400}
 
 HERE = os.path.dirname(os.path.dirname(os.path.abspath(__file__)))
@@ -196,6 +215,48 @@ def evr_versions(tier):
     return [s for s in enumx.text_strings(["0", "1", "a", ".", "~", "^"], 2) if s]
 
 
+# ---- boundary universe: EMPTY (falsy but real) fields ---------------------------------------
+B_EPOCHS = {"quick": [None, "0", "1"], "thorough": [None, "(none)", "0", "1", "10"]}
+B_VERSIONS = {"quick": ["", "0", "1"], "thorough": ["", "0", "1", "1.0", "a", "~"]}
+B_RELEASES = {"quick": ["", "0", "1", "2", "~"], "thorough": ["", "0", "1", "2", "~", "^", "1.el7"]}
+B_HOWS = ["dict", "json", "package"]
+B_TRIPLE_ROWS = {"quick": 45, "thorough": 14}      # first-index rows per triples unit
+
+
+def boundary_universe(tier):
+    return [[e, v, r] for e in B_EPOCHS[tier] for v in B_VERSIONS[tier] for r in B_RELEASES[tier]]
+
+
+def boundary_list_universe(tier):
+    """Same-name packages that differ (mostly) in the field that can be empty; lists are enumerated in EVERY order because
+    max()/min() keep the first of several elements the comparison calls equal."""
+    if tier == "quick":
+        return [[None, v, r] for v in ["", "1"] for r in ["", "1", "2"]] + [["1", "", ""], ["0", "1", ""]]
+    return [[e, v, r] for e in [None, "1"] for v in ["", "0", "1"] for r in ["", "0", "1", "2", "~"]]
+
+
+def package_constructible(e, v, r):
+    """Can 'name-[epoch:]version-release.arch' express this EVR?  Neither field may contain the dash; an empty release cannot be
+    written (the dot of the architecture would follow the dash); an empty version exists only behind an explicit 'epoch:'."""
+    if r == "" or "-" in r or "-" in v:
+        return False
+    if v == "" and e in (None, "(none)"):
+        return False
+    return True
+
+
+def boundary_elements(tier, how):
+    u = boundary_universe(tier)
+    if how == "package":
+        # "(none)" is written like an absent epoch in this form: keep one of the two spellings (no repeated cases)
+        u = [t for t in u if t[0] != "(none)" and package_constructible(*t)]
+    return u
+
+
+def _has_empty(t):
+    return t[1] == "" or t[2] == ""
+
+
 def units(tier, seed):
     b = BOUNDS[tier]
     n = len(universe(b["max_len"]))
@@ -210,6 +271,14 @@ def units(tier, seed):
     us += [{"part": "evr", "vi": i} for i in range(nv)]
     us += [{"part": "operators", "shard": i, "of": 16} for i in range(16)]
     us += [{"part": "lists", "shard": i, "of": 16} for i in range(16)]
+    for how in B_HOWS:
+        us.append({"part": "boundary-pairs", "how": how})
+    nb = len(boundary_universe(tier))
+    step = B_TRIPLE_ROWS[tier]
+    for how in ("dict", "json"):
+        us += [{"part": "boundary-triples", "how": how, "lo": lo, "hi": min(nb, lo + step)} for lo in range(0, nb, step)]
+    nl = 1 if tier == "quick" else 8
+    us += [{"part": "boundary-lists", "shard": i, "of": nl} for i in range(nl)]
     return us
 
 
@@ -305,6 +374,9 @@ def check_evr_case(case):
     got = rpm_version_compare(a, b)
     if sign(got) != exp:
         out.append(("evr:epoch-version-release", exp, got))
+    back = rpm_version_compare(b, a)
+    if sign(back) != -sign(got):
+        out.append(("evr:antisymmetric", -sign(got), back))
     obs = {}
     for op in OPS:
         obs[op] = _apply(op, a, b)
@@ -366,6 +438,34 @@ def check_list_case(case):
                 break
     if holder.newest("absent") is not None or holder.oldest("absent") is not None:
         out.append(("lists:absent-name-none", None, "not None"))
+    return out
+
+
+def check_triple_case(case):
+    """case = {"kind": "evr-triple", "x": [e,v,r], "y": [e,v,r], "z": [e,v,r], "how": ...}
+    The ordering laws on one ordered triple of same-name packages, REFERENCE-FREE: only the implementation's own answers are
+    related to each other (total preorder: x <= y and y <= z imply x <= z, strictly if one premise is strict; '==' is transitive;
+    the rich operators obey the same laws)."""
+    _, rpm_version_compare, InstalledRpm, _, _ = _imp()
+    how = case.get("how", "dict")
+    x, y, z = [mk_rpm(InstalledRpm, "pkg", t[0], t[1], t[2], how) for t in (case["x"], case["y"], case["z"])]
+    return _triple_laws(sign(rpm_version_compare(x, y)), sign(rpm_version_compare(y, z)), sign(rpm_version_compare(x, z)),
+                        (x <= y, x == y, x < y), (y <= z, y == z, y < z), (x <= z, x == z, x < z))
+
+
+def _triple_laws(xy, yz, xz, oxy, oyz, oxz):
+    out = []
+    if xy <= 0 and yz <= 0:
+        want = 0 if (xy == 0 and yz == 0) else -1
+        if xz != want:
+            out.append(("order:transitive", "compare(x,z) = %d because compare(x,y) = %d and compare(y,z) = %d" % (want, xy, yz), xz))
+    (le_xy, eq_xy, lt_xy), (le_yz, eq_yz, lt_yz), (le_xz, eq_xz, lt_xz) = oxy, oyz, oxz
+    if le_xy and le_yz and not le_xz:
+        out.append(("operators:le-transitive", "x <= z because x <= y and y <= z", "x <= z is %r" % (le_xz,)))
+    if eq_xy and eq_yz and not eq_xz:
+        out.append(("operators:eq-transitive", "x == z because x == y and y == z", "x == z is %r" % (eq_xz,)))
+    if ((lt_xy and le_yz) or (le_xy and lt_yz)) and not lt_xz:
+        out.append(("operators:lt-transitive", "x < z because x <= y <= z with one strict", "x < z is %r" % (lt_xz,)))
     return out
 
 
@@ -485,6 +585,98 @@ def run_unit(unit, tier):
         res.samples.append({"kind": "evr", "l": u[1], "r": u[2], "how": "json", "names": ["pkg", "pkg"]})
         return res
 
+    if part == "boundary-pairs":
+        how = unit["how"]
+        u = boundary_elements(tier, how)
+        InstalledRpm = _imp()[2]
+        # vacuity guard: the constructor really yields packages with an EMPTY version / release where the descriptor says so
+        n_empty = 0
+        for t in u:
+            if _has_empty(t):
+                try:
+                    o = mk_rpm(InstalledRpm, "pkg", t[0], t[1], t[2], how)
+                    n_empty += int((o.version == "" or o.release == "") and o.version == t[1] and o.release == t[2])
+                except Exception:
+                    pass
+        if not n_empty:
+            raise RuntimeError("boundary universe is vacuous through %r: no constructed package has an empty field" % how)
+        res.stat("boundary_packages_with_empty_field_%s" % how, n_empty)
+        for l in u:
+            for r in u:
+                case = {"kind": "evr", "l": l, "r": r, "how": how, "names": ["pkg", "pkg"]}
+                try:
+                    vio = check_evr_case(case)
+                except Exception as ex:
+                    vio = [("evr:raises", "no exception", repr(ex))]
+                res.case(nontrivial=(l != r and (_has_empty(l) or _has_empty(r))),
+                         outcome="bpair:%s:%d:%d%d" % (how, ref_evr(*(l + r)), _has_empty(l), _has_empty(r)))
+                for c, exp, got in vio:
+                    res.violation(c, case, exp, got, {"empty_field": _has_empty(l) or _has_empty(r)})
+        res.samples.append({"kind": "evr", "l": u[0], "r": u[1], "how": how, "names": ["pkg", "pkg"]})
+        return res
+
+    if part == "boundary-triples":
+        how = unit["how"]
+        u = boundary_elements(tier, how)
+        n = len(u)
+        _, rpm_version_compare, InstalledRpm, _, _ = _imp()
+        # two separately built object sets: compare(A[i], B[j]) never takes an identity shortcut
+        A = [mk_rpm(InstalledRpm, "pkg", t[0], t[1], t[2], how) for t in u]
+        B = [mk_rpm(InstalledRpm, "pkg", t[0], t[1], t[2], how) for t in u]
+        try:
+            M = [[sign(rpm_version_compare(a, bb)) for bb in B] for a in A]
+            O = [[(a <= bb, a == bb, a < bb) for bb in B] for a in A]
+        except Exception as ex:
+            res.violation("evr:raises", {"kind": "boundary-matrix", "how": how, "tier": tier}, "no exception", repr(ex))
+            return res
+        if unit["lo"] == 0:
+            res.evals += n * n
+            res.nontrivial += sum(1 for i in range(n) for j in range(n) if i != j and (_has_empty(u[i]) or _has_empty(u[j])))
+        triples = premises = 0
+        for i in range(unit["lo"], unit["hi"]):
+            Mi, Oi = M[i], O[i]
+            for j in range(n):
+                xy, oxy = Mi[j], Oi[j]
+                Mj, Oj = M[j], O[j]
+                for k in range(n):
+                    triples += 1
+                    bad = _triple_laws(xy, Mj[k], Mi[k], oxy, Oj[k], Oi[k])
+                    if xy <= 0 and Mj[k] <= 0:
+                        premises += 1
+                    if bad:
+                        case = {"kind": "evr-triple", "x": u[i], "y": u[j], "z": u[k], "how": how}
+                        vio = check_triple_case(case)
+                        if not vio:
+                            raise RuntimeError("triple laws fail on the matrix but not on fresh objects: %r" % (case,))
+                        for c, exp, got in vio:
+                            res.violation(c, case, exp, got,
+                                          {"empty_field": any(_has_empty(t) for t in (u[i], u[j], u[k]))})
+        res.stat("boundary_triples_checked", triples)
+        res.stat("boundary_triples_with_premise", premises)
+        res.outcomes.add("btriple:%s:%s" % (how, premises > 0))
+        res.samples.append({"kind": "evr-triple", "x": u[unit["lo"]], "y": u[1], "z": u[2], "how": how})
+        return res
+
+    if part == "boundary-lists":
+        u = boundary_list_universe(tier)
+
+        def bgen():
+            for n in range(1, b["list_len"] + 1):
+                for t in itertools.product(range(len(u)), repeat=n):
+                    for via in ("mixin", "parser"):
+                        yield t, via
+        for t, via in enumx.shard(bgen(), unit["shard"], unit["of"]):
+            case = {"kind": "list", "evrs": [u[i] for i in t], "via": via}
+            try:
+                vio = check_list_case(case)
+            except Exception as ex:
+                vio = [("lists:raises", "no exception", repr(ex))]
+            res.case(nontrivial=len(set(t)) > 1 and any(_has_empty(u[i]) for i in t), outcome="blist:%d:%s" % (len(t), via))
+            for c, exp, got in vio:
+                res.violation(c, case, exp, got, {"empty_field": any(_has_empty(u[i]) for i in t)})
+        res.samples.append({"kind": "list", "evrs": [u[0], u[1], u[2]], "via": "parser"})
+        return res
+
     if part == "lists":
         u = evr_universe40()
         def gen():
@@ -520,6 +712,23 @@ def replay(case):
         vio = check_evr_case(case)
     elif kind == "list":
         vio = check_list_case(case)
+    elif kind == "evr-triple":
+        vio = check_triple_case(case)
+    elif kind == "boundary-matrix":
+        _, rpm_version_compare, InstalledRpm, _, _ = _imp()
+        u = boundary_elements(case["tier"], case["how"])
+        vio = []
+        for l in u:
+            for r in u:
+                try:
+                    a = mk_rpm(InstalledRpm, "pkg", l[0], l[1], l[2], case["how"])
+                    bb = mk_rpm(InstalledRpm, "pkg", r[0], r[1], r[2], case["how"])
+                    rpm_version_compare(a, bb), a <= bb, a == bb, a < bb
+                except Exception as ex:
+                    vio = [("evr:raises", "no exception", repr(ex))]
+                    break
+            if vio:
+                break
     elif kind == "sort-universe":
         return []
     else:
@@ -546,7 +755,9 @@ TECHNIQUE = ("bounded exhaustive enumeration of all ordered pairs of version str
 LEVEL_TEXT = ("Every ordered pair of strings of length <= 3 (quick) / <= 4 (thorough, 54 M pairs) over an alphabet with one "
               "symbol per branch of the algorithm is compared with RPM's reference; reflexivity, antisymmetry and the total "
               "preorder are decided on the whole universe via rank classes; epoch/version/release layering, all six rich "
-              "operators and newest/oldest are enumerated over EVR universes. No sampling: the statement is 'no counterexample "
+              "operators and newest/oldest are enumerated over EVR universes, including a boundary universe with EMPTY version / release "
+              "fields (all pairs per constructor against the reference, all triples for the transitivity laws, all lists of <= 3 in "
+              "every order). No sampling: the statement is 'no counterexample "
               "within the bound'.")
 LEVEL_NOTE = ("Trusted: ref/rpmvercmp.c (transcribed from upstream, re-validated against rpm's rpmvercmp.at rows and a second "
               "Python model on every run); bounded by string length and alphabet; real rpm binary not available offline.")
